@@ -23,7 +23,7 @@ func (eng *Engine) makeReplay(id string, cfg *PropConfig, v *violation, dir stri
 		model = eng.candidateModel(r.gen, r.Obl, r.dir, r.idx)
 	}
 	if model != "" {
-		fmt.Fprintf(&sb, "\ncandidate counterexample (quantified assertions dropped; uninterpreted spec functions are unconstrained in it):\n%s\n", summarizeModel(model, r.gen))
+		fmt.Fprintf(&sb, "\na candidate counterexample exists (quantified assertions dropped; uninterpreted spec functions are unconstrained in it); parameter headers of one such model:\n%s\n", summarizeModel(model, r.gen))
 	} else {
 		fmt.Fprintf(&sb, "\nno candidate model: the solvers answered %s\n", r.Answer)
 	}
